@@ -270,9 +270,9 @@ fn shrink_ops(col: &mut Col, c: &BCase) -> BCase {
     best
 }
 
-fn c10_enumerate(col: &mut Col, worker: u64, workers: u64, thorough: bool) -> (u64, bool) {
+/// enumerates the C10 table; `f(index, get-case, try_get-case)` returns false to stop
+pub fn c10_entries(thorough: bool, mut f: impl FnMut(u64, BCase, BCase) -> bool) {
     let mut idx: u64 = 0;
-    let mut done = 0u64;
     for (gi, g) in GETTERS.iter().enumerate() {
         let widths: Vec<usize> = if g.size == 0 { (0..=8).collect() } else { vec![g.size] };
         for k in widths {
@@ -281,15 +281,9 @@ fn c10_enumerate(col: &mut Col, worker: u64, workers: u64, thorough: bool) -> (u
                 let mask = if k <= 8 { mi } else { (util::SplitMix(mi as u64 * 77 + 5).next() as u32) & 0x7fff };
                 // shortfall s: only k - s bytes present (s = 0: all there)
                 for short in 0..=k.min(if thorough { 16 } else { 3 }) {
-                    if short > 0 && short > k {
-                        continue;
-                    }
                     let pats: &[usize] = if thorough { &[0, 1, 2, 3, 4, 5, 6, 7] } else { &[1, 2, 5, 7] };
                     for &p in pats {
                         idx += 1;
-                        if idx % workers != worker {
-                            continue;
-                        }
                         let val = value_pattern(p, k, idx);
                         let present = &val[..k - short];
                         let before = (idx % 3) as usize;
@@ -297,31 +291,43 @@ fn c10_enumerate(col: &mut Col, worker: u64, workers: u64, thorough: bool) -> (u
                         let (spec, skip) = cut_spec(present, mask, before, after, (idx % 11) as u8, ((idx / 7) % 6) as u8);
                         // skip the bytes before the value, then get / try_get on twin trees
                         let mut ops = Vec::new();
-                        if skip > 0 {
-                            // advance(n): selector with a%16 >= 12 means (a/16) % (rem+2); use explicit small advances
-                            for _ in 0..skip {
-                                ops.push((1u8, 1u32, 0u32));
-                            }
+                        for _ in 0..skip {
+                            ops.push((1u8, 1u32, 0u32));
                         }
                         let mut c1 = BCase { spec: spec.clone(), ops: ops.clone() };
                         c1.ops.push((6, gi as u32, k as u32));
                         let mut c2 = BCase { spec, ops };
                         c2.ops.push((7, gi as u32, k as u32));
-                        for c in [&c1, &c2] {
-                            if let Some(v) = col.eval(c, true) {
-                                let small = shrink_ops(col, c);
-                                let v2 = col.eval(&small, false).unwrap_or(v);
-                                col.record(&small, v2, "enumerated getter table");
-                                return (done, false);
-                            }
+                        if !f(idx, c1, c2) {
+                            return;
                         }
-                        done += 2;
                     }
                 }
             }
         }
     }
-    (done, true)
+}
+
+fn c10_enumerate(col: &mut Col, worker: u64, workers: u64, thorough: bool) -> (u64, bool) {
+    let mut done = 0u64;
+    let mut complete = true;
+    c10_entries(thorough, |idx, c1, c2| {
+        if idx % workers != worker {
+            return true;
+        }
+        for c in [&c1, &c2] {
+            if let Some(v) = col.eval(c, true) {
+                let small = shrink_ops(col, c);
+                let v2 = col.eval(&small, false).unwrap_or(v);
+                col.record(&small, v2, "enumerated getter table");
+                complete = false;
+                return false;
+            }
+        }
+        done += 2;
+        true
+    });
+    (done, complete)
 }
 
 pub fn main_buf(args: &Args) -> i32 {
